@@ -144,3 +144,44 @@ func TestDirectoryObjectWithChildrenIsListedUnderItsOwnPrefix(t *testing.T) {
 		t.Errorf("GET /bkt?prefix=d/: %s", l.Body)
 	}
 }
+
+// Only the entry named like the bookkeeping directory directly below the bucket is bookkeeping. A key with that name
+// further down is a key like any other; it was left out of every listing and, being a file, it made the walk skip the
+// rest of its directory (d/z vanished with it).
+func TestAKeyNamedLikeTheBookkeepingDirectoryFurtherDownIsListed(t *testing.T) {
+	g := gwtest.Start(t, gwtest.Options{})
+	g.MustStatus(g.Put(g.RootC, "/bkt", nil, nil), 200, "create bucket")
+	for _, k := range []string{"d/a", "d/.sgwtmp", "d/z", "e/.sgwtmp/inner", "top"} {
+		g.MustStatus(g.Put(g.RootC, "/bkt/"+k, []byte("x"), nil), 200, "put "+k)
+	}
+	for _, q := range []string{"", "?delimiter=/&prefix=d/", "?list-type=2&prefix=e/"} {
+		l := g.Get(g.RootC, "/bkt"+q, nil)
+		for _, k := range []string{"d/a", "d/.sgwtmp", "d/z", "e/.sgwtmp/inner", "top"} {
+			if q == "?delimiter=/&prefix=d/" && !strings.HasPrefix(k, "d/") || q == "?list-type=2&prefix=e/" && !strings.HasPrefix(k, "e/") {
+				continue
+			}
+			if !strings.Contains(string(l.Body), "<Key>"+k+"</Key>") {
+				t.Errorf("GET /bkt%s: the key %s is missing", q, k)
+			}
+		}
+		if strings.Contains(string(l.Body), "<Key>.sgwtmp") || strings.Contains(string(l.Body), "<Prefix>.sgwtmp") {
+			t.Errorf("GET /bkt%s shows the bookkeeping directory: %s", q, l.Body)
+		}
+	}
+}
+
+// A prefix that no key can have (an empty or dot segment: such keys are refused) matches nothing: the listing is empty.
+// The walk handed the directory part of such a prefix to the file system, which refused it, and the request failed with 500.
+func TestPrefixThatNoKeyCanHaveListsNothing(t *testing.T) {
+	g := gwtest.Start(t, gwtest.Options{})
+	g.MustStatus(g.Put(g.RootC, "/bkt", nil, nil), 200, "create bucket")
+	g.MustStatus(g.Put(g.RootC, "/bkt/a/b", []byte("x"), nil), 200, "put a/b")
+	for _, p := range []string{"a//", "../x", "a/../z", "a/./b", "/a"} {
+		for _, q := range []string{"?prefix=", "?list-type=2&delimiter=/&prefix="} {
+			l := g.Get(g.RootC, "/bkt"+q+strings.ReplaceAll(p, "/", "%2F"), nil)
+			if l.Status != 200 || strings.Contains(string(l.Body), "<Key>") || strings.Contains(string(l.Body), "<CommonPrefixes>") {
+				t.Errorf("GET /bkt%s%s: want an empty listing, got %d %s", q, p, l.Status, l.Body)
+			}
+		}
+	}
+}
